@@ -387,7 +387,8 @@ def _c06_row(scn):
     ctx = drive.execute(scn, behave.RandomBehaviour(0, p_event=0.0, ev_next=(None,)), behave.FifoPolicy())
     o = ctx.outcome
     if o.get("phase") == "build":
-        return None
+        # (every scenario of this family is legal: its weak connections join simulators that share a group)
+        return {"scn": S.tla_scn(ctx.scn), "out": "other", "path": [], "steps": 0, "msg": ("the scenario could not be BUILT: " + o["r"] + ": " + o["msg"])[:200]}
     if getattr(ctx, "refused_accepted", False):
         return {"scn": S.tla_scn(ctx.scn), "out": "other", "path": [], "steps": 0, "msg": "a connect() call with an unknown source attribute was accepted"}
     steps = sum(1 for e in ctx.trace if e["k"] == "SB")
@@ -444,6 +445,9 @@ def c06(tier, seed):
         combo = sorted(set(rng.randrange(len(opts)) for _ in range(k)))
         scns.append({"sims": [{"sid": C06_SIDS[i], "type": "hybrid", "gpath": list(gps[i])} for i in range(n)],
                      "conns": [dict(opts[i]) for i in combo], "until": 1, "lazy": False, "maxloop": 3})
+        if rng.random() < 0.3:
+            # the group context managers are created up front and entered later / one manager decorates a function called per group
+            scns[-1]["group_cm"] = rng.choice(["upfront", "decorator"])
     nexh = len(scns) - nsample
     rings = c06_rings(tier, rng)
     scns += rings
@@ -532,7 +536,7 @@ def c11_specs():
                                                "init": init, "any": bool(any_), "nolist": any_ == "nolist", "child": child}
 
 
-C11_PRIORS = ("noinit", "badattr", "badattr_rev", "group_exc")
+C11_PRIORS = ("noinit", "badattr", "badattr_rev", "group_exc", "accepted_shared_init")
 
 
 def c11_history_specs():
@@ -548,6 +552,8 @@ def c11_history_specs():
                         for shift in (0, 1):
                             for weak in (False, True):
                                 for init in (False, True):
+                                    if prior == "accepted_shared_init" and not init:
+                                        continue
                                     yield {"sg": sg, "dg": dg, "pairs": [{"sk": sk, "dk": dk}], "shift": shift, "weak": weak, "init": init,
                                            "any": False, "nolist": False, "child": "", "prior": prior}
 
@@ -581,6 +587,8 @@ def _c11_row(spec):
     prior = spec.get("prior", "")
     if prior == "group_exc":
         scn["abandoned_group"] = True
+    if prior == "accepted_shared_init":
+        scn["sims"][1]["nent"] = 2  # the same call is first made towards a SECOND entity of the destination simulator
 
     child = spec.get("child", "")
     if child == "src":
@@ -607,6 +615,16 @@ def _c11_row(spec):
             kw["weak"] = True
         if spec["init"]:
             kw["initial_data"] = {sa: "init." + sa for sa, _ in pairs}
+        if prior == "accepted_shared_init" and res.get("with_prior", True):
+            # an earlier call with the SAME arguments - in particular the same initial_data dict object, as in a loop over
+            # destinations - towards another entity; accepted or refused exactly like the call under test
+            try:
+                w.connect(src, ctx.ents["Sb"][1], *pairs, **kw)
+                res["prior_out"] = "accepted"
+            except ScenarioError:
+                res["prior_out"] = "ScenarioError"
+            except BaseException as e:  # noqa: BLE001
+                res["prior_out"] = f"{type(e).__name__}"
         if prior in ("noinit", "badattr", "badattr_rev") and res.get("with_prior", True):
             # an earlier call of the same world that is refused (and whose ScenarioError the script catches)
             try:
@@ -652,8 +670,14 @@ def _c11_row(spec):
         scn0 = {k: v for k, v in scn.items() if k != "abandoned_group"}
         b0 = drive.execute(scn0, beh(), behave.FifoPolicy(), hooks=lambda ctx: attempt(ctx, res=res0))
         row["prior_out"] = res.get("prior_out", "ScenarioError" if prior == "group_exc" else "none")
-        row["priorsame"] = (res.get("out"), res.get("named")) == (res0.get("out"), res0.get("named")) and a.outcome["r"] == b0.outcome["r"] \
-            and _obs(a, True) == _obs(b0, True)
+        row["prior_must_fail"] = prior != "accepted_shared_init"
+        same_verdict = (res.get("out"), res.get("named")) == (res0.get("out"), res0.get("named"))
+        if prior == "accepted_shared_init":
+            # (the earlier call is a connection of its own: only the VERDICT of the call under test must be the same, and the earlier
+            # call must have got the same verdict)
+            row["priorsame"] = same_verdict and res.get("prior_out") == ("accepted" if res.get("out") == "ok" else "ScenarioError")
+        else:
+            row["priorsame"] = same_verdict and a.outcome["r"] == b0.outcome["r"] and _obs(a, True) == _obs(b0, True)
     return row
 
 
@@ -808,9 +832,9 @@ def c12_siblings(rows, universe, limit, rng):
         pair = by[(typ, kj)]
         # (the announced API version must not matter for the classification: older ones go through mosaik's adapters)
         ver = rng.choice(["3.0", "3.0", "3.0.16", "2.4", "2.2", "2.0", "2"])
-        for first in (False, True):
+        for first in (False, True, "twin"):
             models = {}
-            for any_ in (first, not first):
+            for any_ in ((first, not first) if first != "twin" else (False,)):
                 r = pair[any_]
                 d = {"public": True, "params": []}
                 for k, n in names.items():
@@ -819,6 +843,10 @@ def c12_siblings(rows, universe, limit, rng):
                 if any_:
                     d["any_inputs"] = True
                 models["Many" if any_ else "Mno"] = d
+            if first == "twin":
+                # two models described by ONE dict object (COMMON = {...}; models = {'A': COMMON, 'B': COMMON}; an in-process
+                # simulator's meta keeps that sharing): each is classified as the description alone is
+                models["Mtwin"] = models["Mno"]
             _C12Sim.META = {"api_version": ver, "type": typ, "models": models}
             with contextlib.redirect_stdout(io.StringIO()), warnings.catch_warnings():
                 warnings.simplefilter("ignore")
@@ -836,13 +864,13 @@ def c12_siblings(rows, universe, limit, rng):
                 finally:
                     world.shutdown()
             # the simulator as a whole is accepted iff both descriptions are; each model's classes are its own
-            want_ok = all(pair[a]["ok"] for a in (False, True))
-            for any_, name in ((False, "Mno"), (True, "Many")):
+            want_ok = all(pair[a]["ok"] for a in (False, True)) if first != "twin" else pair[False]["ok"]
+            for any_, name in (((False, "Mno"), (True, "Many")) if first != "twin" else ((False, "Mno"), (False, "Mtwin"))):
                 g, w = got[name], pair[any_]
                 if g["ok"] != want_ok or (g["ok"] and any(g[n] != w[n] for n in ("rnt", "rtr", "rps", "rnp"))):
                     bad.append({"type": typ, "api_version": ver, "lists": json.loads(kj), "any_inputs": any_, "first_model_has_any_inputs": first,
                                 "started": g, "alone": {n: w[n] for n in ("ok", "rnt", "rtr", "rps", "rnp")}})
-    return bad, min(limit, len(keys)) * 2
+    return bad, min(limit, len(keys)) * 3
 
 
 def c12_algebra(universe):
@@ -927,7 +955,7 @@ def c12(tier, seed):
         "evaluations": len(rows) + len(algebra), "distinct_nontrivial": len(rows) + len(algebra),
         "rule": f"every model description with each of attrs / trigger / non-trigger / persistent / non-persistent absent or any subset of {list(universe)} "
                 f"x any_inputs x 3 simulator types ({len(rows)} descriptions; real parse_attrs; result sets compared by membership on the universe plus the witness 'z' "
-                f"for 'any other attribute'); the same over the name universes {list(odd)} and ['q.x', 'q-x'] (names are opaque); plus {sib_n} simulator starts (World.start) of a description together with a sibling model that differs only in any_inputs, both orders, announcing API version 3.0 / 3.0.16 / 2.4 / 2.2 / 2.0 / 2; plus every InOrOutSet expression x op y, op in |,&,-,==,in over the finite/co-finite sets over the same universe ({len(algebra)} rows)",
+                f"for 'any other attribute'); the same over the name universes {list(odd)} and ['q.x', 'q-x'] (names are opaque); plus {sib_n} simulator starts (World.start) of a description together with a sibling model that differs only in any_inputs, both orders, and with a twin model described by the SAME dict object, announcing API version 3.0 / 3.0.16 / 2.4 / 2.2 / 2.0 / 2; plus every InOrOutSet expression x op y, op in |,&,-,==,in over the finite/co-finite sets over the same universe ({len(algebra)} rows)",
         "exhaustive": True,
         "accepted": sum(1 for r in rows if r["ok"]),
         "record_secs": round(t1 - t0, 1),
@@ -1178,7 +1206,8 @@ def _c15_inproc(ver, explicit, kind, hastype, fail=None):
     stubs.CONFIG["meta"] = _c15_meta(ver, hastype)
     stubs.CONFIG["fail"] = fail
     del stubs.LOG[:]
-    cfg = {"python": "harness.stubs:" + {"inproc_v3": "V3SigDefault", "inproc_v3_kwonly": "V3SigKwOnly", "inproc_v3_kwargs": "V3SigKwargs"}.get(kind, "OldSig")}
+    cfg = {"python": "harness.stubs:" + {"inproc_v3": "V3SigDefault", "inproc_v3_kwonly": "V3SigKwOnly", "inproc_v3_kwargs": "V3SigKwargs", "inproc_v3_sub": "V3SigOfOld",
+                                         "inproc_old_sub": "OldSigOfV3"}.get(kind, "OldSig")}
     exp = _c15_explicit(ver, explicit)
     if exp:
         cfg["api_version"] = exp
@@ -1257,7 +1286,8 @@ def c15_rows():
     ref_fail = {exc: _c15_inproc("3.0", "absent", "inproc_v3", True, fail=[2, exc]) for exc in C15_FAILS if exc != "none"}
     for ver in C15_VERSIONS:
         for explicit in ("absent", "equal", "different"):
-            for kind in ("remote", "inproc_v3", "inproc_v3_kwonly", "inproc_v3_kwargs", "inproc_old"):
+            # (the *_sub kinds are classes DERIVED from a class of the opposite kind that was started before them in this process)
+            for kind in ("remote", "inproc_v3", "inproc_v3_kwonly", "inproc_v3_kwargs", "inproc_old", "inproc_old_sub", "inproc_v3_sub"):
                 for hastype, fail in [(True, "none"), (False, "none"), ("event-based", "none"), ("hybrid", "none")] + ([(True, e) for e in C15_FAILS if e != "none"] if kind != "remote" and explicit == "absent" else []):
                     if fail != "none":
                         # the simulator's own step raises at its second call: the adapter must not turn that into further requests
@@ -1310,7 +1340,7 @@ def c15(tier, seed):
         "samples": [rows[3], next(r for r in rows if r["out"] == "ok" and r["vs"] == "2.1" and r["kind"] == "remote")],
         "evaluations": len(rows), "distinct_nontrivial": len(rows),
         "rule": f"api_version in {C15_VERSIONS} x explicit api_version (absent / equal / different) x (remote stub behind the shipped RemoteProxy over fake streams, "
-                "in-process stub with v3 signatures in three legal shapes (time_resolution positional-or-keyword / keyword-only without **kwargs / only **kwargs), in-process stub with old signatures) x meta without type / with type time-based, event-based, hybrid x (in-process) three extra-method calls x the stub's second step raising ValueError / RuntimeError / KeyError; each row = world.start + create + run(until=3) "
+                "in-process stub with v3 signatures in three legal shapes (time_resolution positional-or-keyword / keyword-only without **kwargs / only **kwargs), in-process stub with old signatures, and each kind once more as a class derived from a class of the OTHER kind that was started earlier in the process) x meta without type / with type time-based, event-based, hybrid x (in-process) three extra-method calls x the stub's second step raising ValueError / RuntimeError / KeyError; each row = world.start + create + run(until=3) "
                 "with the exact requests the stub received; compared with the run of a 3.0 stub",
         "exhaustive": True,
         "outcomes": dict(collections.Counter((r["kind"], r["out"]) .__str__() for r in rows)),
